@@ -213,6 +213,15 @@ public:
         c.final(tag_.data(), tag_.size());
     }
 
+#if defined(HMAC_CPP_VERIF)
+    // Verification hooks (compiled only with -DHMAC_CPP_VERIF): direct access to the
+    // stored representation and to the process-wide key, for tamper / at-rest checks.
+    std::vector<uint8_t>&   verif_ct()    { return ct_; }
+    std::array<uint8_t,12>& verif_nonce() { return nonce_; }
+    std::array<uint8_t,32>& verif_tag()   { return tag_; }
+    static const std::array<uint8_t,32>& verif_process_key() { return process_key(); }
+#endif
+
 private:
     static std::array<uint8_t,32>& process_key() {
         static std::array<uint8_t,32> k = []{
